@@ -158,6 +158,12 @@ def gen_history(rng, profile='c01', nops=80, cfg=None, heavy=None):
                 ops.append('repair %d' % rng.below(5)); live_snaps = []
                 for k in keys: ops.append('get %s -' % khex(k))
                 ops.append('scan -'); ops.append('layout')
+                if rng.chance(1, 2) and len(keys) >= 3:
+                    # new writes must take precedence over everything repair salvaged: a flush whose range STRADDLES the
+                    # level-0 tables repair registered (smallest and largest key new, a middle key overwritten)
+                    ks = sorted(keys); mid = ks[len(ks) // 2]
+                    ops += ['put %s @6:%d' % (khex(ks[0]), rng.below(256)), 'put %s @7:%d' % (khex(mid), rng.below(256)),
+                            'put %s @8:%d' % (khex(ks[-1]), rng.below(256)), 'flush', 'layout', 'get %s -' % khex(mid), 'scan -']
         elif o == 'backup':
             n = rng.below(3); backups.add(n)
             ops.append('backup %d' % n)
